@@ -2,7 +2,7 @@
 # usage: confirm_seed.sh <WT>   (worktree /tmp/wt_<WT> with both diffs applied)
 wt=$1; cd /tmp/wt_$wt || exit 2
 export CARGO_NET_OFFLINE=true CARGO_TARGET_DIR=/tmp/wt_$wt/target
-cmd=$(python3 -c "import json;print(json.load(open('SEEDED/meta.json'))['demo_command'])")
+cmd=$(python3 -c "import json;print(json.load(open('SEEDED/meta.json'))['demo_command'].split('   (')[0])")
 echo "== $wt: $cmd"
 bash -c "$cmd" > /tmp/confirm_$wt.with.log 2>&1; w=$?
 git apply -R SEEDED/patch.diff || { echo "cannot revert patch"; exit 2; }
